@@ -11,7 +11,7 @@
 //                             only the schedule-independent predicates are evaluated
 //
 //   term ::= (obs) | (set k n) | (get k) | (push n) | (deftype a) | (load a) | (panic)
-//          | (doctx id term…) | (do id term…) | (doloader term…) | (fork term…) | (go term…) | (seq term…) | (recover term…)
+//          | (doctx id term…) | (doparent id term…) | (do id term…) | (try id term…) | (doloader term…) | (fork term…) | (go term…) | (seq term…) | (recover term…)
 //
 // Output (see lean/Driver/C14.lean): `g0:N ev … | g1:P ev … ; cur=- live=0`.
 //
@@ -47,7 +47,7 @@ import (
 func init() {
 	core.Register(&core.Prop{
 		ID:   "C14",
-		Rule: "distinct op lines; non-trivial = the program establishes at least one nested context, loader scope or goroutine (doctx/do/doloader/fork/go)",
+		Rule: "distinct op lines; non-trivial = the program establishes at least one nested context, loader scope or goroutine (doctx/doparent/do/try/doloader/fork/go)",
 		Gen:  gen,
 		Exec: exec,
 	})
@@ -121,7 +121,7 @@ func parse(s sx.Sexp) (*node, bool) {
 		}
 		n, ok := natOf(a[0])
 		return &node{op: tag, n: n}, ok
-	case "doctx", "do":
+	case "doctx", "do", "doparent", "try":
 		if len(a) < 1 {
 			return nil, false
 		}
@@ -150,7 +150,7 @@ func (n *node) sexp() sx.Sexp {
 		return sx.T(n.op, sx.Int(int64(n.n)))
 	}
 	var xs []sx.Sexp
-	if n.op == "doctx" || n.op == "do" {
+	if n.op == "doctx" || n.op == "do" || n.op == "doparent" || n.op == "try" {
 		xs = append(xs, sx.Int(int64(n.n)))
 	}
 	for _, k := range n.kids {
@@ -612,6 +612,39 @@ func (r *runner) run(n *node, g *ginfo, s *sctx) {
 				r.seq(n.kids, g, x)
 			})
 		}()
+	case "doparent":
+		// pcore.DoWithParent with a px.Context parent: forks the parent and makes the fork current for the actor
+		x := r.newShadow(s, g)
+		before := rawCurrent()
+		func() {
+			defer r.scopeCheck("DoWithParent", g, before)
+			pcore.DoWithParent(c, func(cc px.Context) {
+				r.bind(x, cc)
+				r.audit(x, "start of doparent")
+				r.setTag(x, n.n)
+				defer r.audit(x, "end of doparent")
+				r.seq(n.kids, g, x)
+			})
+		}()
+	case "try":
+		before := rawCurrent()
+		func() {
+			defer r.scopeCheck("Try", g, before)
+			err := pcore.Try(func(cc px.Context) error {
+				x := r.newShadow(nil, g)
+				r.bind(x, cc)
+				r.setTag(x, n.n)
+				defer r.audit(x, "end of try")
+				r.seq(n.kids, g, x)
+				return nil
+			})
+			if err != nil {
+				r.emit(g, "R")
+				if err != errBoom {
+					r.fail("crash", "Try returned an unexpected error on g%d: %v", g.gid, oneLine(err))
+				}
+			}
+		}()
 	case "doloader":
 		saveReal := c.Loader()
 		saveShadow := s.loader
@@ -908,7 +941,7 @@ func exec(c px.Context, op string, args []sx.Sexp) core.Result {
 		res := core.Result{Out: r.render(curTag, live), Pred: r.pred(), Tags: tagsOf(n, r, len(sched) > 0)}
 		n.walk(func(x *node) {
 			switch x.op {
-			case "doctx", "do", "doloader", "fork", "go":
+			case "doctx", "do", "doparent", "try", "doloader", "fork", "go":
 				res.NonTrivial = true
 			}
 		})
@@ -991,7 +1024,7 @@ var exLeaves = []func() *node{
 	func() *node { return &node{op: "panic"} },
 }
 
-var exComposites = []string{"doctx", "do", "doloader", "fork", "go", "recover"}
+var exComposites = []string{"doctx", "do", "try", "doloader", "fork", "go", "recover"}
 
 // terms(n): every term with exactly n nodes; forests(n): every non-empty sequence of terms with n nodes in total
 type enum struct {
@@ -1044,7 +1077,7 @@ func (e *enum) forests(n int) [][]*node {
 func number(n *node, next *int) *node {
 	c := &node{op: n.op, k: n.k, n: n.n}
 	switch n.op {
-	case "doctx", "do", "set", "push":
+	case "doctx", "do", "doparent", "try", "set", "push":
 		*next++
 		c.n = *next
 	}
@@ -1130,9 +1163,9 @@ func (x *rgen) term(size int) *node {
 	if size <= 1 {
 		return x.leaf()
 	}
-	ops := []string{"doctx", "doctx", "do", "doloader", "fork", "fork", "fork", "go", "go", "recover", "seq"}
+	ops := []string{"doctx", "doctx", "doparent", "do", "try", "doloader", "fork", "fork", "fork", "go", "go", "recover", "seq"}
 	n := &node{op: core.Pick(x.r, ops)}
-	if n.op == "doctx" || n.op == "do" {
+	if n.op == "doctx" || n.op == "do" || n.op == "doparent" || n.op == "try" {
 		x.id++
 		n.n = x.id
 	}
